@@ -22,9 +22,7 @@ import CalVerif.Gen.Ftab
       * numbers: `PtgNum` is printed by Rust's `Display for f64`; the model takes the printer as the
         parameter `Ctx.fmtNum` (bits → text) and nothing else depends on it;
       * strings: BIFF8 only (code page 1200): a compressed string is Latin-1, an uncompressed one is
-        UTF-16LE with U+FFFD for unpaired surrogates (`encoding_rs`).  The BOM sniffing that
-        `Encoding::decode` performs on the first character (U+FEFF dropped, U+FFFE / EF BB BF switch
-        the decoder) is NOT modelled; the harness never generates those three first units. -/
+        UTF-16LE with U+FFFD for unpaired surrogates (`encoding_rs` `decode_without_bom_handling`). -/
 
 namespace Ptg
 
